@@ -103,7 +103,7 @@ def render_content(c, preds):
 
 
 def gen_mc(wd, name, base, consts, spec, invariants=(), props=(), view="view", constraint="Emit",
-           contents=None, preds=("p",), defs=(), extra_cfg=()):
+           contents=None, preds=("p",), defs=(), extra_cfg=(), header="EmitHeader"):
     """Write <name>.tla / <name>.cfg into wd (a scratch copy of spec/)."""
     lines = ["---- MODULE %s ----" % name, "EXTENDS %s" % base]
     cfg = ["SPECIFICATION %s" % spec, "CONSTANTS"]
@@ -116,7 +116,7 @@ def gen_mc(wd, name, base, consts, spec, invariants=(), props=(), view="view", c
         lines.append("MC_%s == %s" % (k, tla_value(v)))
         cfg.append("  %s <- MC_%s" % (k, k))
     lines.extend(defs)
-    lines.append("ASSUME EmitHeader")
+    lines.append("ASSUME " + header)
     lines.append("====")
     if view:
         cfg.append("VIEW %s" % view)
